@@ -564,6 +564,9 @@ class PathMgr:
             # inputs and whatever the entry heap references existed before the call
             self.old_terms.add(sv.get_id())
             self._add_axiom(z3.Implies(Val.is_ref(v), Val.r(v) < smt.FRESH_BASE))
+        for K, sid in getattr(self, 'singletons', []):
+            self.use_class(K)
+            self._add_axiom(z3.Implies(z3.And(Val.is_ref(v), self.sub_term(smt.cls_of(Val.r(v)), K)), Val.r(v) == sid))
         T, F = builtin_class('type'), builtin_class('function')
         self.use_class(T)
         self.use_class(F)
